@@ -397,7 +397,7 @@ let handle (line : string) : string =
             let ((ok, acc), _) = codec_encode m ws in
             Buffer.add_string b (if ok then "SE ok " else "SE err "); Buffer.add_string b (tok_of_bytes acc)
         | _ -> Buffer.add_string b "R err")
-   | "SV" ->
+   | "SV" | "SVP" ->     (* SVP: other connections of the process are stuck meanwhile - a connection depends on its own stream only *)
        let ds = get_dict (next t) in
        let rs = parse_rscript t in
        let ws = parse_wscript t in
